@@ -88,6 +88,48 @@ int vm_sscanf(const char *str, const char *fmt, ...) {
       int width = 0, have_width = 0, neg = 0, from, to, n = 0;
       char *out;
       while (vm_isdigit((unsigned char) fmt[f])) { width = width * 10 + (fmt[f] - '0'); have_width = 1; f++; }
+      if (!have_width && fmt[f] != '[') {
+        /* numeric conversions without field width: [hh|h|l|ll] d i u x X o   and   [l] f e g (C11 7.21.6.2 p11-12):
+         * input white space is skipped (p8), the subject sequence is that of strtol (base 10/0/10/16/8) or
+         * strtod; scanning cores shared with the strtol/strtod models (glibc's scanf deviations included) */
+        int lmod = 0, base = -1, isflt = 0, sneg, sovf;
+        size_t used;
+        char cv;
+        if (fmt[f] == 'h') { lmod = -1; f++; if (fmt[f] == 'h') { lmod = -2; f++; } }
+        else if (fmt[f] == 'l') { lmod = 1; f++; if (fmt[f] == 'l') { lmod = 2; f++; } }
+        cv = fmt[f];
+        if (cv == 'd' || cv == 'u') base = 10; else if (cv == 'i') base = 0; else if (cv == 'x' || cv == 'X') base = 16;
+        else if (cv == 'o') base = 8; else if ((cv == 'f' || cv == 'e' || cv == 'g') && lmod >= 0 && lmod <= 1) isflt = 1;
+        if (base < 0 && !isflt) { VM_MODEL_FAIL("unsupported conversion specification"); break; }
+        f++;
+        while (str[i] != '\0' && vm_isspace((unsigned char) str[i])) i++;
+        if (str[i] == '\0') { fail_input = 1; break; }
+        if (isflt) {
+          double dv = vm_scan_float(str + i, 1, &used);
+          if (used == 0) break;                                    /* matching failure */
+          if (lmod == 1) *va_arg(ap, double *) = dv; else *va_arg(ap, float *) = (float) dv;
+        } else {
+          unsigned long long mag = vm_scan_int(str + i, base, 1, &used, &sneg, &sovf);
+          unsigned long long uv;
+          if (used == 0) break;                                    /* matching failure */
+          if (cv == 'd' || cv == 'i') {
+            /* conversion as by strtol / strtoll (clamped), then stored with the size of the length modifier */
+            unsigned long long max = (lmod == 2) ? ~0ull >> 1 : (unsigned long long) (~0ul >> 1);
+            long long sv;
+            if (sneg) sv = (sovf || mag > max + 1ull) ? -(long long) max - 1 : (long long) (0ull - mag);
+            else sv = (sovf || mag > max) ? (long long) max : (long long) mag;
+            uv = (unsigned long long) sv;
+          } else uv = sovf ? ~0ull : (sneg ? 0ull - mag : mag);
+          if (lmod == 2) *va_arg(ap, unsigned long long *) = uv;
+          else if (lmod == 1) *va_arg(ap, unsigned long *) = (unsigned long) uv;
+          else if (lmod == 0) *va_arg(ap, unsigned *) = (unsigned) uv;
+          else if (lmod == -1) *va_arg(ap, unsigned short *) = (unsigned short) uv;
+          else *va_arg(ap, unsigned char *) = (unsigned char) uv;
+        }
+        i += (int) used;
+        done++;
+        continue;
+      }
       if (fmt[f] != '[' || (have_width && width == 0)) { VM_MODEL_FAIL("unsupported conversion specification"); break; }
       f++;
       if (fmt[f] == '^') { neg = 1; f++; }
